@@ -231,5 +231,66 @@ def rule_e5(repo):
     return res
 
 
+def _selection_table(f):
+    """For a function of the shape  cmp = asymp_compare(a, b); if cmp == X [or cmp == Y]: return a / b / Unknown()
+    give {comparison outcome: 'a' | 'b' | 'unknown'} - the outcomes are a finite enumeration, the table is the
+    whole behaviour of the function on comparable arguments."""
+    ps = f.params()
+    cmpv = [n.targets[0].id for n in ast.walk(f.node) if isinstance(n, ast.Assign) and isinstance(n.value, ast.Call) and
+            call_name(n.value) == 'asymp_compare' and [path_of(x) for x in n.value.args] == ps[:2] and isinstance(n.targets[0], ast.Name)]
+    need(cmpv, '%s: `cmp = asymp_compare(a, b)` not found' % f.qualname)
+    chain = [n for n in f.node.body if isinstance(n, ast.If) and any(is_name(x, cmpv[0]) for x in ast.walk(n.test))]
+    need(chain, '%s: case distinction on the comparison not found' % f.qualname)
+
+    def holds(test, outcome):
+        if isinstance(test, ast.BoolOp):
+            vals = [holds(v, outcome) for v in test.values]
+            return any(vals) if isinstance(test.op, ast.Or) else all(vals)
+        cp = compare_parts(test)
+        need(cp and is_name(cp[1], cmpv[0]) and isinstance(cp[2], ast.Name) and cp[0] in (ast.Eq, ast.NotEq),
+             '%s: test `%s` on the comparison not recognised' % (f.qualname, src(test, 40)))
+        return (cp[2].id == outcome) == (cp[0] is ast.Eq)
+
+    def result(body):
+        need(len(body) == 1 and isinstance(body[0], ast.Return), '%s: a case does not return directly' % f.qualname)
+        v = body[0].value
+        if isinstance(v, ast.Name) and v.id in ps[:2]:
+            return 'ab'[ps.index(v.id)]
+        need(isinstance(v, ast.Call) and call_name(v) == 'Unknown', '%s: result `%s` not recognised' % (f.qualname, src(v, 30)))
+        return 'unknown'
+    table = {}
+    for outcome in ('LESS', 'GREATER', 'EQUAL', 'UNKNOWN'):
+        node = chain[0]
+        while True:
+            if holds(node.test, outcome):
+                table[outcome] = result(node.body)
+                break
+            if len(node.orelse) == 1 and isinstance(node.orelse[0], ast.If):
+                node = node.orelse[0]
+                continue
+            table[outcome] = result(node.orelse)
+            break
+    return table
+
+
+def rule_e6(repo):
+    """The growth of a sum is the growth of its fastest term; the decay of a sum of decaying terms
+    (1/a + 1/b) is that of the *slowest* one, i.e. of the smaller asymptote.  Both functions select by the outcome of
+    asymp_compare, a four-valued enumeration - their whole behaviour is a table, read off the code."""
+    res = RuleResult('C19.E6', 'a sum of growing terms takes the greater asymptote, a sum of decaying terms the smaller one', floor=2)
+    want = {'asymp_add': {'LESS': {'b'}, 'GREATER': {'a'}, 'EQUAL': {'a', 'b'}, 'UNKNOWN': {'unknown'}},
+            'asymp_add_inv': {'LESS': {'a'}, 'GREATER': {'b'}, 'EQUAL': {'a', 'b'}, 'UNKNOWN': {'unknown'}}}
+    for name, w in want.items():
+        f = repo.func('integral/limits.py', name)
+        t = _selection_table(f)
+        bad = ['for %s it returns %s' % (o, {'a': 'the first', 'b': 'the second', 'unknown': 'Unknown()'}[t[o]]) for o in w if t[o] not in w[o]]
+        res.add('integral/limits.py :: %s :: selects-%s' % (name, 'greater' if name == 'asymp_add' else 'smaller'), not bad,
+                'table %s' % ', '.join('%s->%s' % kv for kv in sorted(t.items())) if not bad else
+                '; '.join(bad) + (' -- the sum 1/a + 1/b is given the decay of its faster-vanishing term: limits of quotients with such a sum '
+                                  'come out as 0 or infinity where they are finite' if name == 'asymp_add_inv' else
+                                  ' -- the sum is given the growth of its slower term'), f.loc)
+    return res
+
+
 def rules(repo):
-    return [rule_e1(repo), rule_e2(repo), rule_e3(repo), rule_e4(repo), rule_e5(repo)]
+    return [rule_e1(repo), rule_e2(repo), rule_e3(repo), rule_e4(repo), rule_e5(repo), rule_e6(repo)]
